@@ -645,7 +645,14 @@ func (m *mappedFile) lookup(name string) (v *atomic.Uint64, headOff, head uint32
 	headOff = m.hdrLen + hashOff + h*4
 	head = m.load32(headOff)
 	off := head
-	for off != 0 {
+	// A well-formed chain visits each record once, so it cannot have more
+	// links than there are records in the mapping. A longer walk means the
+	// chain is cyclic, which can only be the result of corruption.
+	maxLinks := len(m.mapping.Data) / recordUnit
+	for n := 0; off != 0; n++ {
+		if n > maxLinks {
+			return nil, 0, 0, false
+		}
 		ename, next, v, ok := m.entryAt(off)
 		if !ok {
 			return nil, 0, 0, false
@@ -763,7 +770,11 @@ func (m *mappedFile) newCounter(name string) (v *atomic.Uint64, m1 *mappedFile, 
 		// Check new elements in chain for duplicates.
 		old := head
 		head = m.load32(headOff)
-		for off := head; off != old; {
+		maxLinks := len(m.mapping.Data) / recordUnit
+		for off, n := head, 0; off != old; n++ {
+			if n > maxLinks {
+				return nil, nil, errCorrupt // cyclic chain
+			}
 			ename, enext, v, ok := m.entryAt(off)
 			if !ok {
 				return nil, nil, errCorrupt
